@@ -567,11 +567,17 @@ func (s *Snapshot) Decode(buf []byte, r io.Reader) error {
 // When snapshots are shared by multiple threads, each thread should Open the
 // snapshot. This API internally tracks the reference count for the snapshot.
 func (s *Snapshot) Open() bool {
-	if atomic.LoadInt32(&s.refCount) == 0 {
-		return false
+	// Test and increment atomically: a plain test followed by an increment can
+	// resurrect a snapshot whose last reference is being dropped concurrently.
+	for {
+		refCount := atomic.LoadInt32(&s.refCount)
+		if refCount == 0 {
+			return false
+		}
+		if atomic.CompareAndSwapInt32(&s.refCount, refCount, refCount+1) {
+			return true
+		}
 	}
-	atomic.AddInt32(&s.refCount, 1)
-	return true
 }
 
 // Close is the snapshot descructor
